@@ -1,5 +1,6 @@
 import PB.Model.Modules
 import PB.Spec.Modules
+import PBProofs.Lemmas.ModulesClosure
 set_option linter.unusedSimpArgs false
 set_option linter.unusedVariables false
 /-!
@@ -527,6 +528,7 @@ structure Inv2 (tr : List Ev) (s : St) : Prop where
   popen : ∀ m, prepBegun tr m = prepEnded tr m + (if s.pc = .prep ∧ m ∈ s.running then 1 else 0)
   cnt : ∀ m, startsOk tr m = stopsBegun tr m + (if s.status m = statusOnline then 1 else 0)
   en : ∀ m, s.enabled m = enabledOf tr m
+  en_lt : ∀ m, s.enabled m = true → m < s.n
   bal : begun tr = ended tr + s.running.length
 
 theorem inv2_init (n : Nat) (deps : Nat → List Nat) (mgmt : Bool) : Inv2 [] (init n deps mgmt) := by
@@ -535,7 +537,7 @@ theorem inv2_init (n : Nat) (deps : Nat → List Nat) (mgmt : Bool) : Inv2 [] (i
 /-- `call`, `ret`, `passEnd`: no callback event, no status change, nothing in flight. -/
 theorem inv2_quiet {tr : List Ev} {s s' : St} {e : Ev} (hi : Inv2 tr s)
     (he : (∃ a, e = .call a) ∨ (∃ a ok, e = .ret a ok) ∨ e = .passEnd)
-    (h4 : s'.status = s.status) (h5 : s'.enabled = s.enabled) (hr : s.running = []) (hr' : s'.running = [])
+    (h4 : s'.status = s.status) (h5 : s'.enabled = s.enabled) (h0 : s'.n = s.n) (hr : s.running = []) (hr' : s'.running = [])
     (hns : startBegun tr → s'.locked = true ∧ s'.pc ≠ .prep) : Inv2 (tr ++ [e]) s' := by
   have hl : lifeOf (tr ++ [e]) = lifeOf tr := by
     rw [lifeOf_snoc]; rcases he with ⟨a, rfl⟩ | ⟨a, ok, rfl⟩ | rfl <;> rfl
@@ -566,6 +568,7 @@ theorem inv2_quiet {tr : List Ev} {s s' : St} {e : Ev} (hi : Inv2 tr s)
   · intro m; rw [h1, h2, hr']; have := hi.popen m; simp [hr] at this; simp [this]
   · intro m; rw [h3, h6, h4]; exact hi.cnt m
   · intro m; rw [hen, h5]; exact hi.en m
+  · intro m; rw [h5, h0]; exact hi.en_lt m
   · rw [h7, h8, hr']; have := hi.bal; simp [hr] at this; simp [this]
 
 theorem lifeCode_launch (k : Kind) : lifeCode (launchStatus k) = match k with | .prep => 0 | .start => 1 | .stop => 3 := by
@@ -644,6 +647,7 @@ theorem inv2_beg {n deps mgmt} {tr : List Ev} {s s' : St} {k : Kind} {m : Nat} (
     · have h' : ¬ (Ev.beg k m = Ev.beg .stop x) := by intro he; cases he; exact hxm rfl
       simp [h', set_other _ _ hxm] at this ⊢; exact this
   · intro x; rw [enabledOf_snoc]; exact hi.en x
+  · exact hi.en_lt
   · rw [begun_snoc, ended_snoc]; have := hi.bal; simp; omega
 
 theorem inv2_fin {n deps mgmt} {tr : List Ev} {s s' : St} {k : Kind} {m : Nat} {ok : Bool} (h1 : Inv1 n deps mgmt s)
@@ -703,6 +707,7 @@ theorem inv2_fin {n deps mgmt} {tr : List Ev} {s s' : St} {k : Kind} {m : Nat} {
     · have h' : ¬ (Ev.fin k m ok = Ev.fin .start x true) := by intro he; cases he; exact hxm rfl
       simp [h', set_other _ _ hxm] at this ⊢; exact this
   · intro x; rw [enabledOf_snoc]; exact hi.en x
+  · exact hi.en_lt
   · rw [begun_snoc, ended_snoc]
     have := hi.bal
     have hl := List.length_erase_of_mem hmem
@@ -730,15 +735,19 @@ theorem inv2_enable {tr : List Ev} {s s' : St} {m : Nat} {v : Bool} (hi : Inv2 t
     by_cases hxm : x = m
     · subst hxm; simp
     · simp [set_other _ _ hxm]; exact hi.en x
+  · intro x hx
+    by_cases hxm : x = m
+    · subst hxm; exact hm
+    · simp [set_other _ _ hxm] at hx; exact hi.en_lt x hx
   · rw [begun_snoc, ended_snoc]; have := hi.bal; cases v <;> simp <;> exact this
 
 theorem inv2_step {n deps mgmt} {tr : List Ev} {s s' : St} {e : Ev} (h1 : Inv1 n deps mgmt s) (hi : Inv2 tr s)
     (h : step s e = some s') : Inv2 (tr ++ [e]) s' := by
   cases e with
   | call a =>
-    obtain ⟨f1, f2, f3, _, _, _, f7, f8, f9⟩ := stepCall_frame h
+    obtain ⟨f1, f2, f3, f4, _, _, f7, f8, f9⟩ := stepCall_frame h
     have hr : s.running = [] := h1.idle_run (by simp [f7, passKind])
-    refine inv2_quiet hi (Or.inl ⟨a, rfl⟩) f1 f2 hr (by rw [f3]; exact hr) ?_
+    refine inv2_quiet hi (Or.inl ⟨a, rfl⟩) f1 f2 f4 hr (by rw [f3]; exact hr) ?_
     intro hs
     have := hi.nostart hs
     refine ⟨f9 this.1, ?_⟩
@@ -746,14 +755,14 @@ theorem inv2_step {n deps mgmt} {tr : List Ev} {s s' : St} {e : Ev} (h1 : Inv1 n
   | ret a ok =>
     obtain ⟨hpc, rfl⟩ := stepRet_some h
     have hr : s.running = [] := h1.idle_run (by simp [hpc, passKind])
-    refine inv2_quiet hi (Or.inr (Or.inl ⟨a, ok, rfl⟩)) rfl rfl hr hr ?_
+    refine inv2_quiet hi (Or.inr (Or.inl ⟨a, ok, rfl⟩)) rfl rfl rfl hr hr ?_
     intro hs; exact ⟨(hi.nostart hs).1, by simp⟩
   | beg k m => exact inv2_beg h1 hi h
   | fin k m ok => exact inv2_fin h1 hi h
   | passEnd =>
     obtain ⟨hr, _⟩ := passEnd_running h1 h
-    obtain ⟨f1, f2, f3, _, _, _, f7, f8, _⟩ := stepPassEnd_frame h
-    refine inv2_quiet hi (Or.inr (Or.inr rfl)) f1 f2 hr (by rw [f3]; exact hr) ?_
+    obtain ⟨f1, f2, f3, f4, _, _, f7, f8, _⟩ := stepPassEnd_frame h
+    refine inv2_quiet hi (Or.inr (Or.inr rfl)) f1 f2 f4 hr (by rw [f3]; exact hr) ?_
     intro hs; exact ⟨by rw [f8]; exact (hi.nostart hs).1, f7⟩
   | enable m => exact inv2_enable (v := true) hi h
   | disable m => exact inv2_enable (v := false) hi h
@@ -762,5 +771,522 @@ theorem inv2_of_runs {n deps mgmt} {tr : List Ev} {s : St} (h : Runs (init n dep
   induction h with
   | nil => exact inv2_init n deps mgmt
   | snoc hr hs ih => exact inv2_step (inv1_of_runs hr) ih hs
+
+/-! ### Fix-point arguments -/
+
+theorem noneReady_spec {s : St} {k : Kind} (h : noneReady s k = true) {m : Nat} (hm : m < s.n) :
+    ready s k m ≠ readyReady := by
+  unfold noneReady at h
+  have := (List.all_eq_true.mp h) m (List.mem_range.mpr hm)
+  simpa using this
+
+theorem anyWaiting_spec {s : St} {k : Kind} (h : anyWaiting s k = false) {m : Nat} (hm : m < s.n) :
+    ready s k m ≠ readyWaiting := by
+  unfold anyWaiting at h
+  intro hw
+  have : (List.range s.n).any (fun m => ready s k m == readyWaiting) = true :=
+    List.any_eq_true.mpr ⟨m, List.mem_range.mpr hm, by simp [hw]⟩
+  simp [this] at h
+
+theorem exists_max_rank (rank : Nat → Nat) (P : Nat → Prop) (n : Nat) (h : ∃ m, m < n ∧ P m) :
+    ∃ m, m < n ∧ P m ∧ ∀ x, x < n → P x → rank x ≤ rank m := by
+  induction n with
+  | zero => obtain ⟨m, hm, _⟩ := h; omega
+  | succ n ih =>
+    by_cases hex : ∃ m, m < n ∧ P m
+    · obtain ⟨m0, hm0, hp0, hmax⟩ := ih hex
+      by_cases hn : P n ∧ rank m0 < rank n
+      · refine ⟨n, by omega, hn.1, ?_⟩
+        intro x hx hpx
+        by_cases hxn : x = n
+        · subst hxn; omega
+        · have := hmax x (by omega) hpx; omega
+      · refine ⟨m0, by omega, hp0, ?_⟩
+        intro x hx hpx
+        by_cases hxn : x = n
+        · subst hxn
+          have : ¬ rank m0 < rank x := fun hlt => hn ⟨hpx, hlt⟩
+          omega
+        · exact hmax x (by omega) hpx
+    · obtain ⟨m, hm, hp⟩ := h
+      have hmn : m = n := by
+        apply Classical.byContradiction; intro hne; exact hex ⟨m, by omega, hp⟩
+      subst hmn
+      refine ⟨m, by omega, hp, ?_⟩
+      intro x hx hpx
+      by_cases hxn : x = m
+      · subst hxn; omega
+      · exact absurd ⟨x, by omega, hpx⟩ hex
+
+/-- The condition under which `readyToStop` leaves an online module alone. -/
+def keep (s : St) (m : Nat) : Bool := s.mgmt && !s.shutdown && (s.enabled m || s.asDep m)
+
+/-- When a stop pass has reached its fix point (nothing in flight, no module ready), every module that is
+    still online is one the pass had to keep — provided the graph is acyclic and the kept set is closed
+    under dependencies. -/
+theorem stop_fixpoint {n deps mgmt} {s : St} (h1 : Inv1 n deps mgmt s) (rank : Nat → Nat)
+    (hrank : ∀ m, m < s.n → ∀ d ∈ s.deps m, rank d < rank m)
+    (hrun : s.running = []) (hnr : noneReady s .stop = true)
+    (hclosed : ∀ r, r < s.n → keep s r = true → ∀ d ∈ s.deps r, keep s d = true) :
+    ∀ m, m < s.n → s.status m = statusOnline → keep s m = true := by
+  intro m hm hon
+  apply Classical.byContradiction
+  intro hk
+  obtain ⟨m0, hm0, ⟨hon0, hk0⟩, hmax⟩ :=
+    exists_max_rank rank (fun x => s.status x = statusOnline ∧ keep s x ≠ true) s.n ⟨m, hm, hon, hk⟩
+  have hready : readyToStop s m0 = readyReady := by
+    rw [readyToStop_ready]
+    refine ⟨by simpa [keep] using hk0, hon0, ?_⟩
+    intro r hr
+    obtain ⟨hrn, hdr⟩ := mem_revDeps.mp hr
+    apply Classical.byContradiction
+    intro hgt
+    have hrange := h1.range r
+    have h3 : s.status r ≠ statusStopping := fun h => by have := h1.stopping_run r h; simp [hrun] at this
+    have h4 : s.status r ≠ statusStarting := fun h => by have := h1.starting_run r h; simp [hrun] at this
+    have h5 : s.status r = statusOnline := by simp at hgt hrange h3 h4 ⊢; omega
+    have hkr : keep s r ≠ true := fun hkr => hk0 (hclosed r hrn hkr m0 hdr)
+    have := hmax r hrn ⟨h5, hkr⟩
+    have := hrank r hrn m0 hdr
+    omega
+  exact noneReady_spec hnr hm0 hready
+
+theorem start_fixpoint {n deps mgmt} {s : St} (h1 : Inv1 n deps mgmt s)
+    (hrun : s.running = []) (hnr : noneReady s .start = true) (hnw : anyWaiting s .start = false) :
+    ∀ m, m < s.n → wanted s m = true → s.status m = statusOnline := by
+  intro m hm hw
+  have hnr' := noneReady_spec hnr hm
+  have hnw' := anyWaiting_spec hnw hm
+  simp only [ready] at hnr' hnw'
+  rw [Ne, readyToStart_ready] at hnr'
+  rw [Ne, readyToStart_waiting] at hnw'
+  have hrange := h1.range m
+  have h3 : s.status m ≠ statusStopping := fun h => by have := h1.stopping_run m h; simp [hrun] at this
+  have h4 : s.status m ≠ statusStarting := fun h => by have := h1.starting_run m h; simp [hrun] at this
+  apply Classical.byContradiction
+  intro h5
+  by_cases hlow : s.status m < statusOffline
+  · exact hnw' ⟨hw, Or.inl hlow⟩
+  · have h2 : s.status m = statusOffline := by simp at hlow hrange h3 h4 h5 ⊢; omega
+    by_cases hd : ∃ d ∈ s.deps m, s.status d < statusOnline
+    · exact hnw' ⟨hw, Or.inr ⟨h2, hd⟩⟩
+    · apply hnr'
+      refine ⟨hw, h2, ?_⟩
+      intro d hdm
+      apply Classical.byContradiction
+      intro hlt
+      exact hd ⟨d, hdm, by simp at hlt ⊢; omega⟩
+
+/-! ### Wanted / shutdown invariant -/
+
+def AsDepSpec (s : St) : Prop :=
+  ∀ m, s.asDep m = true ↔ ∃ e, e < s.n ∧ s.enabled e = true ∧ TransDep s.deps e m
+
+theorem buildEnabledTree_spec {s : St} (hreg : ∀ m, m < s.n → ∀ d ∈ s.deps m, d < s.n) :
+    AsDepSpec (buildEnabledTree s) := by
+  intro m
+  simp only [buildEnabledTree]
+  exact closure_spec s.n s.deps s.enabled hreg m
+
+theorem keep_closed {s : St} (hs : AsDepSpec s) :
+    ∀ r, r < s.n → keep s r = true → ∀ d ∈ s.deps r, keep s d = true := by
+  intro r hr hk d hd
+  simp only [keep, Bool.and_eq_true, Bool.or_eq_true] at hk ⊢
+  refine ⟨hk.1, Or.inr ?_⟩
+  rw [hs d]
+  rcases hk.2 with hen | had
+  · exact ⟨r, hr, hen, TransDep.direct hd⟩
+  · obtain ⟨e, he, hee, ht⟩ := (hs r).mp had
+    exact ⟨e, he, hee, transDep_tail ht hd⟩
+
+structure Inv3 (s : St) : Prop where
+  asdep : (s.pc = .startS ∨ s.pc = .stopM ∨ s.pc = .startM ∨ s.pc = .done .start true ∨
+            (s.pc = .done .manage true ∧ s.mgmt = true)) → AsDepSpec s
+  up : (s.pc = .startS ∨ s.pc = .startM) → ∀ m, statusOffline < s.status m → wanted s m = true
+  okS : (s.pc = .done .start true ∨ (s.pc = .done .manage true ∧ s.mgmt = true)) →
+          ∀ m, m < s.n → (s.status m = statusOnline ↔ wanted s m = true)
+  down : s.shutdown = true → s.pc ≠ .stopX → ∀ m, s.status m ≠ statusOnline
+  sd_pc : s.shutdown = true → passKind s.pc = none ∨ s.pc = .stopX
+
+theorem inv3_init (n : Nat) (deps : Nat → List Nat) (mgmt : Bool) : Inv3 (init n deps mgmt) := by
+  constructor <;> simp [init, passKind]
+
+theorem inv3_beg {n deps mgmt} {s s' : St} {k : Kind} {m : Nat} (h1 : Inv1 n deps mgmt s) (hi : Inv3 s)
+    (h : stepBeg s k m = some s') : Inv3 s' := by
+  obtain ⟨hm, hk, hr, rfl⟩ := stepBeg_some h
+  constructor
+  · intro hp; exact hi.asdep hp
+  · intro hp x hx
+    by_cases hxm : x = m
+    · subst hxm
+      have hks : k = .start := by
+        rcases hp with hp | hp <;> simp at hp <;> simp [hp, passKind] at hk <;> exact hk.symm
+      subst hks
+      exact (readyToStart_ready.mp hr).1
+    · simp [set_other _ _ hxm] at hx; exact hi.up hp x (by simpa using hx)
+  · intro hp; exfalso
+    rcases hp with hp | ⟨hp, _⟩ <;> simp at hp <;> simp [hp, passKind] at hk
+  · intro hsd hne x
+    exfalso
+    rcases hi.sd_pc hsd with hp | hp
+    · simp [hp] at hk
+    · exact hne hp
+  · exact hi.sd_pc
+
+theorem inv3_fin {n deps mgmt} {s s' : St} {k : Kind} {m : Nat} {ok : Bool} (h1 : Inv1 n deps mgmt s) (hi : Inv3 s)
+    (h : stepFin s k m ok = some s') : Inv3 s' := by
+  obtain ⟨hk, hmem, hst, rfl⟩ := stepFin_some h
+  constructor
+  · intro hp; exact hi.asdep hp
+  · intro hp x hx
+    by_cases hxm : x = m
+    · subst hxm
+      have hks : k = .start := by
+        rcases hp with hp | hp <;> simp at hp <;> simp [hp, passKind] at hk <;> exact hk.symm
+      subst hks
+      exact hi.up hp x (by simp [hst, launchStatus])
+    · simp [set_other _ _ hxm] at hx; exact hi.up hp x (by simpa using hx)
+  · intro hp; exfalso
+    rcases hp with hp | ⟨hp, _⟩ <;> simp at hp <;> simp [hp, passKind] at hk
+  · intro hsd hne x
+    exfalso
+    rcases hi.sd_pc hsd with hp | hp
+    · simp [hp] at hk
+    · exact hne hp
+  · exact hi.sd_pc
+
+theorem inv3_ret {s s' : St} {a : Api} {ok : Bool} (hi : Inv3 s)
+    (h : stepRet s a ok = some s') : Inv3 s' := by
+  obtain ⟨hpc, rfl⟩ := stepRet_some h
+  constructor
+  · intro hp; simp at hp
+  · intro hp; simp at hp
+  · intro hp; simp at hp
+  · intro hsd _; exact hi.down hsd (by simp [hpc])
+  · intro _; left; simp [passKind]
+
+theorem inv3_enable {s s' : St} {m : Nat} {v : Bool} (hi : Inv3 s)
+    (h : stepEnable s m v = some s') : Inv3 s' := by
+  obtain ⟨hpc, _, rfl⟩ := stepEnable_some h
+  constructor
+  · intro hp; simp [hpc] at hp
+  · intro hp; simp [hpc] at hp
+  · intro hp; simp [hpc] at hp
+  · intro hsd hne; exact hi.down hsd hne
+  · exact hi.sd_pc
+
+theorem inv3_call {n deps mgmt} {s s' : St} {a : Api} (h1 : Inv1 n deps mgmt s) (hi : Inv3 s)
+    (hreg : ∀ m, m < n → ∀ d ∈ deps m, d < n)
+    (h : stepCall s a = some s') : Inv3 s' := by
+  have hreg' : ∀ m, m < s.n → ∀ d ∈ s.deps m, d < s.n := by rw [h1.hn, h1.hdeps]; exact hreg
+  cases a with
+  | start =>
+    simp only [stepCall] at h
+    split at h; · cases h
+    rename_i hpc; simp at hpc
+    split at h; · cases h
+    rename_i hsd
+    have hdown : ∀ x : St, x.shutdown = s.shutdown → (x.shutdown = true → x.pc ≠ .stopX → ∀ m, x.status m ≠ statusOnline) := by
+      intro x hx hxs; rw [hx] at hxs; exact absurd hxs hsd
+    have hsdpc : ∀ x : St, x.shutdown = s.shutdown → (x.shutdown = true → passKind x.pc = none ∨ x.pc = .stopX) := by
+      intro x hx hxs; rw [hx] at hxs; exact absurd hxs hsd
+    (repeat' split at h) <;> cases h <;>
+      exact ⟨by simp [enterPass], by simp [enterPass], by simp [enterPass], hdown _ rfl, hsdpc _ rfl⟩
+  | manage =>
+    simp only [stepCall] at h
+    split at h; · cases h
+    rename_i hpc; simp at hpc
+    split at h
+    · rename_i hmg; simp at hmg
+      cases h
+      exact ⟨by simp [hmg], by simp, by simp [hmg], fun hsd _ => hi.down hsd (by simp [hpc]), fun _ => Or.inl (by simp [passKind])⟩
+    · split at h; · cases h
+      split at h; · cases h
+      rename_i hsd
+      cases h
+      refine ⟨?_, by simp [enterPass], by simp [enterPass], ?_, ?_⟩
+      · intro _
+        have := buildEnabledTree_spec (s := s) hreg'
+        exact this
+      · intro hx; simp [enterPass, buildEnabledTree] at hx; exact absurd hx hsd
+      · intro hx; simp [enterPass, buildEnabledTree] at hx; exact absurd hx hsd
+  | shutdown =>
+    simp only [stepCall] at h
+    split at h; · cases h
+    rename_i hpc; simp at hpc
+    split at h
+    · rename_i hsd
+      cases h
+      exact ⟨by simp, by simp, by simp, fun _ _ => hi.down hsd (by simp [hpc]), fun _ => Or.inl (by simp [passKind])⟩
+    · cases h
+      exact ⟨by simp [enterPass], by simp [enterPass], by simp [enterPass], by simp [enterPass], fun _ => Or.inr (by simp [enterPass])⟩
+
+theorem start_pass_done {n deps mgmt} {s : St} (h1 : Inv1 n deps mgmt s) (hi : Inv3 s)
+    (hp : s.pc = .startS ∨ s.pc = .startM)
+    (hrun : s.running = []) (hnr : noneReady s .start = true) (hnw : anyWaiting s .start = false) :
+    ∀ m, m < s.n → (s.status m = statusOnline ↔ wanted s m = true) := by
+  intro m hm
+  constructor
+  · intro hon; exact hi.up hp m (by simp [hon])
+  · exact start_fixpoint h1 hrun hnr hnw m hm
+
+theorem no_shutdown_in_pass {s : St} (hi : Inv3 s) {k : Kind} (hk : passKind s.pc = some k) (hne : s.pc ≠ .stopX) :
+    s.shutdown = false := by
+  cases hsd : s.shutdown
+  · rfl
+  · rcases hi.sd_pc hsd with hp | hp
+    · simp [hp] at hk
+    · exact absurd hp hne
+
+theorem inv3_passEnd {n deps mgmt} {s s' : St} (h1 : Inv1 n deps mgmt s) (hi : Inv3 s)
+    (hreg : ∀ m, m < n → ∀ d ∈ deps m, d < n)
+    (rank : Nat → Nat) (hrank : ∀ m, m < n → ∀ d ∈ deps m, rank d < rank m)
+    (h : stepPassEnd s = some s') : Inv3 s' := by
+  have hreg' : ∀ m, m < s.n → ∀ d ∈ s.deps m, d < s.n := by rw [h1.hn, h1.hdeps]; exact hreg
+  have hrank' : ∀ m, m < s.n → ∀ d ∈ s.deps m, rank d < rank m := by rw [h1.hn, h1.hdeps]; exact hrank
+  obtain ⟨hrun, _⟩ := passEnd_running h1 h
+  unfold stepPassEnd at h
+  split at h; · cases h
+  cases hpc : s.pc with
+  | idle => simp [hpc] at h
+  | done a ok => simp [hpc] at h
+  | prep =>
+    have hsd : s.shutdown = false := no_shutdown_in_pass hi (k := .prep) (by simp [hpc, passKind]) (by simp [hpc])
+    simp only [hpc] at h
+    (repeat' split at h) <;> first
+      | (cases h; done)
+      | (cases h; exact ⟨by simp, by simp, by simp, by simp [hsd], by simp [hsd]⟩)
+      | (cases h
+         refine ⟨fun _ => buildEnabledTree_spec (s := s) hreg', ?_, by simp [enterPass], by simp [enterPass, buildEnabledTree, hsd],
+                 by simp [enterPass, buildEnabledTree, hsd]⟩
+         intro _ m hm
+         have := h1.prep_low (Or.inl hpc) m
+         simp [enterPass, buildEnabledTree] at hm this
+         omega)
+  | startS =>
+    have hsd : s.shutdown = false := no_shutdown_in_pass hi (k := .start) (by simp [hpc, passKind]) (by simp [hpc])
+    simp only [hpc] at h
+    split at h
+    · cases h; exact ⟨by simp, by simp, by simp, by simp [hsd], by simp [hsd]⟩
+    · split at h; · cases h
+      rename_i hnr; simp at hnr
+      split at h
+      · cases h; exact ⟨by simp, by simp, by simp, by simp [hsd], by simp [hsd]⟩
+      · rename_i hnw; simp at hnw
+        cases h
+        refine ⟨fun _ => hi.asdep (Or.inl hpc), by simp, ?_, by simp [hsd], by simp [hsd]⟩
+        intro _
+        show ∀ m, m < s.n → (s.status m = statusOnline ↔ wanted s m = true)
+        exact start_pass_done h1 hi (Or.inl hpc) hrun hnr hnw
+  | stopM =>
+    have hsd : s.shutdown = false := no_shutdown_in_pass hi (k := .stop) (by simp [hpc, passKind]) (by simp [hpc])
+    simp only [hpc] at h
+    split at h; · cases h
+    rename_i hnr; simp at hnr
+    cases h
+    have hspec := hi.asdep (Or.inr (Or.inl hpc))
+    refine ⟨fun _ => hspec, ?_, by simp [enterPass], by simp [enterPass, hsd], by simp [enterPass, hsd]⟩
+    intro _ m hm
+    simp [enterPass] at hm
+    show wanted s m = true
+    have hrange := h1.range m
+    have h3 : s.status m ≠ statusStopping := fun h => by have := h1.stopping_run m h; simp [hrun] at this
+    have h4 : s.status m ≠ statusStarting := fun h => by have := h1.starting_run m h; simp [hrun] at this
+    have h5 : s.status m = statusOnline := by simp at hm hrange h3 h4 ⊢; omega
+    have hmn : m < s.n := by
+      apply Classical.byContradiction; intro hge
+      have := h1.out_dead m (by omega); simp [this] at h5
+    have := stop_fixpoint h1 rank hrank' hrun hnr (keep_closed hspec) m hmn h5
+    simp [keep] at this
+    rcases this.2 with h | h <;> simp [wanted, h]
+  | startM =>
+    have hsd : s.shutdown = false := no_shutdown_in_pass hi (k := .start) (by simp [hpc, passKind]) (by simp [hpc])
+    simp only [hpc] at h
+    split at h
+    · cases h; exact ⟨by simp, by simp, by simp, by simp [hsd], by simp [hsd]⟩
+    · split at h; · cases h
+      rename_i hnr; simp at hnr
+      split at h
+      · cases h; exact ⟨by simp, by simp, by simp, by simp [hsd], by simp [hsd]⟩
+      · rename_i hnw; simp at hnw
+        cases h
+        refine ⟨fun _ => hi.asdep (Or.inr (Or.inr (Or.inl hpc))), by simp, ?_, by simp [hsd], by simp [hsd]⟩
+        intro _
+        show ∀ m, m < s.n → (s.status m = statusOnline ↔ wanted s m = true)
+        exact start_pass_done h1 hi (Or.inr hpc) hrun hnr hnw
+  | stopX =>
+    have hsd : s.shutdown = true := h1.stopX_shutdown hpc
+    simp only [hpc] at h
+    split at h; · cases h
+    rename_i hnr; simp at hnr
+    cases h
+    refine ⟨by simp, by simp, by simp, ?_, fun _ => Or.inl (by simp [passKind])⟩
+    intro _ _ m hon
+    have hmn : m < s.n := by
+      apply Classical.byContradiction; intro hge
+      have := h1.out_dead m (by omega); simp [this] at hon
+    have := stop_fixpoint h1 rank hrank' hrun hnr (by intro r _ hk; simp [keep, hsd] at hk) m hmn hon
+    simp [keep, hsd] at this
+
+theorem inv3_step {n deps mgmt} {s s' : St} {e : Ev} (h1 : Inv1 n deps mgmt s) (hi : Inv3 s)
+    (hreg : ∀ m, m < n → ∀ d ∈ deps m, d < n)
+    (rank : Nat → Nat) (hrank : ∀ m, m < n → ∀ d ∈ deps m, rank d < rank m)
+    (h : step s e = some s') : Inv3 s' := by
+  cases e with
+  | call a => exact inv3_call h1 hi hreg h
+  | ret a ok => exact inv3_ret hi h
+  | beg k m => exact inv3_beg h1 hi h
+  | fin k m ok => exact inv3_fin h1 hi h
+  | passEnd => exact inv3_passEnd h1 hi hreg rank hrank h
+  | enable m => exact inv3_enable hi h
+  | disable m => exact inv3_enable hi h
+
+theorem inv3_of_runs {n deps mgmt} {tr : List Ev} {s : St}
+    (hreg : ∀ m, m < n → ∀ d ∈ deps m, d < n)
+    (rank : Nat → Nat) (hrank : ∀ m, m < n → ∀ d ∈ deps m, rank d < rank m)
+    (h : Runs (init n deps mgmt) tr s) : Inv3 s := by
+  induction h with
+  | nil => exact inv3_init n deps mgmt
+  | snoc hr hs ih => exact inv3_step (inv1_of_runs hr) ih hreg rank hrank hs
+
+/-! ### Shutdown is final; dependencies stay online while a module is started -/
+
+theorem step_shutdown_mono {s s' : St} {e : Ev} (h : step s e = some s') (hsd : s.shutdown = true) :
+    s'.shutdown = true ∧ (s'.pc = .stopX → s.pc = .stopX) := by
+  cases e with
+  | call a =>
+    cases a <;> simp only [step, stepCall] at h <;> (repeat' split at h) <;>
+      first
+        | (cases h; done)
+        | (cases h; simp_all [enterPass, buildEnabledTree])
+  | ret a ok => obtain ⟨_, rfl⟩ := stepRet_some h; simp [hsd]
+  | beg k m => obtain ⟨_, _, _, rfl⟩ := stepBeg_some h; simp [hsd]
+  | fin k m ok => obtain ⟨_, _, _, rfl⟩ := stepFin_some h; simp [hsd]
+  | passEnd =>
+    obtain ⟨_, _, _, _, _, _, f7, _, f9⟩ := stepPassEnd_frame h
+    refine ⟨by rw [f9]; exact hsd, ?_⟩
+    intro hp
+    simp only [step] at h
+    unfold stepPassEnd at h
+    (repeat' split at h) <;> first
+      | (cases h; done)
+      | (cases h; simp [enterPass] at hp)
+  | enable m => obtain ⟨_, _, rfl⟩ := stepEnable_some h; simp [hsd]
+  | disable m => obtain ⟨_, _, rfl⟩ := stepEnable_some h; simp [hsd]
+
+structure Inv4 (tr : List Ev) (s : St) : Prop where
+  done_sd : ∀ ok, s.pc = .done .shutdown ok → s.shutdown = true
+  after_sd : (∃ ok, Ev.ret .shutdown ok ∈ tr) → s.shutdown = true ∧ s.pc ≠ .stopX
+  deps_on : ∀ m, m < s.n → statusOffline < s.status m → ∀ d ∈ s.deps m, s.status d = statusOnline
+
+theorem inv4_init (n : Nat) (deps : Nat → List Nat) (mgmt : Bool) : Inv4 [] (init n deps mgmt) := by
+  constructor <;> simp [init]
+
+theorem inv4_step {n deps mgmt} {tr : List Ev} {s s' : St} {e : Ev} (h1 : Inv1 n deps mgmt s) (hi : Inv4 tr s)
+    (h : step s e = some s') : Inv4 (tr ++ [e]) s' := by
+  have hafter : (∃ ok, Ev.ret .shutdown ok ∈ tr ++ [e]) → s'.shutdown = true ∧ s'.pc ≠ .stopX := by
+    rintro ⟨ok, hmem⟩
+    rcases List.mem_append.mp hmem with hmem | hmem
+    · obtain ⟨hsd, hpc⟩ := hi.after_sd ⟨ok, hmem⟩
+      obtain ⟨h1', h2'⟩ := step_shutdown_mono h hsd
+      exact ⟨h1', fun hp => hpc (h2' hp)⟩
+    · simp at hmem; subst hmem
+      obtain ⟨hpc, rfl⟩ := stepRet_some h
+      exact ⟨hi.done_sd ok hpc, by simp⟩
+  cases e with
+  | call a =>
+    obtain ⟨f1, _, _, f4, f5, _, f7, _, _⟩ := stepCall_frame h
+    refine ⟨?_, hafter, by rw [f1, f4, f5]; exact hi.deps_on⟩
+    intro ok hp
+    cases a <;> simp only [step, stepCall] at h <;> (repeat' split at h) <;>
+      first
+        | (cases h; done)
+        | (cases h; simp_all [enterPass, buildEnabledTree])
+  | ret a ok =>
+    obtain ⟨hpc, rfl⟩ := stepRet_some h
+    exact ⟨by simp, hafter, hi.deps_on⟩
+  | beg k m =>
+    obtain ⟨hm, hk, hr, rfl⟩ := stepBeg_some h
+    refine ⟨?_, hafter, ?_⟩
+    · intro ok hp; simp at hp; simp [hp, passKind] at hk
+    · intro x hx hgt d hd
+      simp at hx hgt hd ⊢
+      have hold : s.status m = (match k with | .prep => statusDead | .start => statusOffline | .stop => statusOnline) := by
+        cases k
+        · exact (readyToPrep_ready.mp hr).1
+        · exact (readyToStart_ready.mp hr).2.1
+        · exact (readyToStop_ready.mp hr).2.1
+      by_cases hxm : x = m
+      · subst hxm
+        by_cases hdx : d = x
+        · subst hdx
+          -- a module that names itself as dependency is never ready to start; a stopping one keeps Online deps
+          cases k
+          · simp [launchStatus] at hgt
+          · have := (readyToStart_ready.mp hr).2.2 d hd
+            simp [hold] at this
+          · have := (readyToStop_ready.mp hr).2.2 d (mem_revDeps.mpr ⟨hx, hd⟩)
+            simp [hold] at this
+        · rw [set_other _ _ hdx]
+          cases k
+          · simp [launchStatus] at hgt
+          · have := (readyToStart_ready.mp hr).2.2 d hd
+            have := h1.range d
+            simp at *; omega
+          · exact hi.deps_on x hx (by simp [hold]) d hd
+      · rw [set_other _ _ hxm] at hgt
+        have hdon := hi.deps_on x hx (by simpa using hgt) d hd
+        by_cases hdm : d = m
+        · subst hdm
+          -- m is a dependency of the started module x, so m was Online: only a stop can be launched on it
+          cases k
+          · simp [hold] at hdon
+          · simp [hold] at hdon
+          · have := (readyToStop_ready.mp hr).2.2 x (mem_revDeps.mpr ⟨hx, hd⟩)
+            simp at this hgt; omega
+        · rw [set_other _ _ hdm]; exact hdon
+  | fin k m ok =>
+    obtain ⟨hk, hmem, hst, rfl⟩ := stepFin_some h
+    refine ⟨?_, hafter, ?_⟩
+    · intro ok' hp; simp at hp; simp [hp, passKind] at hk
+    · intro x hx hgt d hd
+      simp at hx hgt hd ⊢
+      by_cases hxm : x = m
+      · subst hxm
+        have hgt0 : statusOffline < s.status x := by
+          cases k <;> cases ok <;> simp [finStatus, launchStatus, hst] at hgt ⊢
+        have hdon := hi.deps_on x hx hgt0 d hd
+        by_cases hdx : d = x
+        · subst hdx; cases k <;> simp [hst, launchStatus] at hdon
+        · rw [set_other _ _ hdx]; exact hdon
+      · rw [set_other _ _ hxm] at hgt
+        have hdon := hi.deps_on x hx (by simpa using hgt) d hd
+        by_cases hdm : d = m
+        · subst hdm; cases k <;> simp [hst, launchStatus] at hdon
+        · rw [set_other _ _ hdm]; exact hdon
+  | passEnd =>
+    obtain ⟨f1, _, _, f4, f5, _, _, _, f9⟩ := stepPassEnd_frame h
+    refine ⟨?_, hafter, by rw [f1, f4, f5]; exact hi.deps_on⟩
+    intro ok hp
+    rw [f9]
+    simp only [step] at h
+    unfold stepPassEnd at h
+    split at h; · cases h
+    cases hpc : s.pc <;> simp only [hpc] at h <;> (repeat' split at h) <;>
+      first
+        | (cases h; done)
+        | (cases h; simp [enterPass] at hp; done)
+        | exact h1.stopX_shutdown hpc
+  | enable m =>
+    obtain ⟨hpc, _, rfl⟩ := stepEnable_some h
+    exact ⟨by simp [hpc], hafter, hi.deps_on⟩
+  | disable m =>
+    obtain ⟨hpc, _, rfl⟩ := stepEnable_some h
+    exact ⟨by simp [hpc], hafter, hi.deps_on⟩
+
+theorem inv4_of_runs {n deps mgmt} {tr : List Ev} {s : St} (h : Runs (init n deps mgmt) tr s) : Inv4 tr s := by
+  induction h with
+  | nil => exact inv4_init n deps mgmt
+  | snoc hr hs ih => exact inv4_step (inv1_of_runs hr) ih hs
 
 end PB.Modules
